@@ -394,6 +394,11 @@ func c08Main(args []string) int {
 			}
 		}
 	}
+	totalBudget := 100.0
+	if common.Tier() == "thorough" {
+		totalBudget = 1500
+	}
+	sched.SpreadBudget(jobs, totalBudget, *procs, 15)
 	tot := sched.RunAll(rep, jobs, []string{"C08", "worker"}, *procs)
 	c08Evidence(rep, tot, pre, sd)
 	if tot.Diverged > 0 {
